@@ -89,12 +89,20 @@ Definition apply_change (c : change) (p : list entry) : list entry :=
 Definition to_obs (p : list entry) : obs :=
   mkObs (concat (map (fun e => unpacks (snd (fst e))) p)) (concat (map (fun e => unpacks (snd e)) p)) (map (fun e => fst (fst e)) p).
 
-Record gstep := mkG { gs_ops : list op; gs_obs : change; gs_learn : option (nat * list N); gs_arch : list afollow }.
+(* one activation mutation of one evaluation network as observed: the selection the Mutations object was created with, the
+   network's activation before and after, the object's selection after the call.  The model ([act_options]) says: the new
+   activation is a candidate (selection minus current), the selection is unchanged *)
+Record actobs := mkAct { ac_orig : list N; ac_before : N; ac_after : N; ac_sel_after : list N }.
+Definition act_ok (a : actobs) : bool :=
+  mem (ac_after a) (act_options (ac_orig a) (ac_before a)) && list_eqb N.eqb (ac_sel_after a) (ac_orig a).
+
+Record gstep := mkG { gs_ops : list op; gs_obs : change; gs_learn : option (nat * list N); gs_arch : list afollow;
+                      gs_act : list actobs }.
 
 Definition gstep_flags (w' : world) (g : gstep) : bool :=
   all_coherent_b w' &&
   match gs_learn g with Some (i, ch) => learn_moves_ok w' i (unpacks ch) | None => true end &&
-  forallb arch_follow_ok (gs_arch g).
+  forallb arch_follow_ok (gs_arch g) && forallb act_ok (gs_act g).
 
 Fixpoint check_gsteps (w : world) (p : list entry) (gs : list gstep) (m : PositiveMap.t N) : bool :=
   match gs with
@@ -127,6 +135,7 @@ Fixpoint first_bad2 (w : world) (p : list entry) (gs : list gstep) (m : Positive
           if negb (all_coherent_b w') then (k, 1%nat)
           else if negb (match gs_learn g with Some (i, ch) => learn_moves_ok w' i (unpacks ch) | None => true end) then (k, 2%nat)
           else if negb (forallb arch_follow_ok (gs_arch g)) then (k, 3%nat)
+          else if negb (forallb act_ok (gs_act g)) then (k, 4%nat)
           else first_bad2 w' p' r m' (S k)
       | None => (k, 0%nat)
       end
